@@ -24,7 +24,7 @@ ASSUMPTIONS = [
 RULE = ("one run = one hypergraph + one dynamics call family (contagion: several rate triples incl. the eight 0/1 regimes, fair, adversarial and "
         "pinned draws; walk: sampled walk + density evolution + matrix identities).  Non-trivial: >= 1 infection/recovery event or >= 3 walk "
         "steps and >= 1 adversarial or pinned draw; distinct = draw-trace digests.")
-TIERS = {"quick": {"runs": 3000, "wall_cap": 240, "det_seeds": 12, "min_tests": 300},
+TIERS = {"quick": {"runs": 20000, "wall_cap": 240, "det_seeds": 12, "min_tests": 300},
          "thorough": {"runs": 80000, "wall_cap": 3000, "det_seeds": 40, "min_tests": 1000}}
 
 
@@ -283,3 +283,9 @@ def simplify(case):
             c2 = json.loads(json.dumps(c))
             c2["time"] = case["time"] // 2
             yield c2
+
+
+def sim_time(stats):
+    c = stats.get("c18", {})
+    return {"unit": "contagion runs x T discrete steps + walk steps", "value": c.get("contagion_runs", 0) + c.get("walk_steps", 0),
+            "state_changes": c.get("events", 0)}
